@@ -423,6 +423,55 @@ func cmdCheck(args []string) int {
 		return 2
 	}
 
+	workerArgs := func(j *workerJob, out string) []string {
+		a := []string{"run", "--repo", *repo, "--verif", *verif, "--pkg", j.h.Pkg, "--harness", j.h.Name, "--out", out,
+			"--shard", fmt.Sprintf("%d/%d", j.shard, j.t.Shards)}
+		solver := j.h.Solver
+		if solver == "" {
+			solver = "z3"
+		}
+		a = append(a, "--solver", solver)
+		if j.h.IntMode {
+			a = append(a, "--intmode")
+		}
+		pre := j.h.Preempt
+		if j.t.Preempt != nil {
+			pre = *j.t.Preempt
+		}
+		a = append(a, "--preempt", strconv.Itoa(pre))
+		if j.t.SubShards > 1 {
+			a = append(a, "--sub", strconv.Itoa(j.t.SubShards))
+		}
+		if j.t.MaxPaths > 0 {
+			a = append(a, "--max-paths", strconv.Itoa(j.t.MaxPaths))
+		}
+		if j.t.Timeout > 0 {
+			a = append(a, "--timeout", strconv.Itoa(j.t.Timeout))
+		}
+		if j.t.QueryTimeout > 0 {
+			a = append(a, "--query-timeout", strconv.Itoa(j.t.QueryTimeout))
+		}
+		w := j.t.Witnesses
+		if w == 0 {
+			w = 4
+		}
+		if j.shard != 0 {
+			w = 1
+		}
+		a = append(a, "--witnesses", strconv.Itoa(w))
+		var ps []string
+		for k, v := range j.t.Params {
+			ps = append(ps, fmt.Sprintf("%s=%d", k, v))
+		}
+		sort.Strings(ps)
+		if len(ps) > 0 {
+			a = append(a, "--params", strings.Join(ps, ","))
+		}
+		if *overlay != "" {
+			a = append(a, "--overlay", *overlay)
+		}
+		return a
+	}
 	// ---- run workers
 	sem := make(chan struct{}, *jobs)
 	var wg sync.WaitGroup
@@ -434,52 +483,7 @@ func cmdCheck(args []string) int {
 			defer wg.Done()
 			sem <- struct{}{}
 			defer func() { <-sem }()
-			a := []string{"run", "--repo", *repo, "--verif", *verif, "--pkg", j.h.Pkg, "--harness", j.h.Name, "--out", j.out,
-				"--shard", fmt.Sprintf("%d/%d", j.shard, j.t.Shards)}
-			solver := j.h.Solver
-			if solver == "" {
-				solver = "z3"
-			}
-			a = append(a, "--solver", solver)
-			if j.h.IntMode {
-				a = append(a, "--intmode")
-			}
-			pre := j.h.Preempt
-			if j.t.Preempt != nil {
-				pre = *j.t.Preempt
-			}
-			a = append(a, "--preempt", strconv.Itoa(pre))
-			if j.t.SubShards > 1 {
-				a = append(a, "--sub", strconv.Itoa(j.t.SubShards))
-			}
-			if j.t.MaxPaths > 0 {
-				a = append(a, "--max-paths", strconv.Itoa(j.t.MaxPaths))
-			}
-			if j.t.Timeout > 0 {
-				a = append(a, "--timeout", strconv.Itoa(j.t.Timeout))
-			}
-			if j.t.QueryTimeout > 0 {
-				a = append(a, "--query-timeout", strconv.Itoa(j.t.QueryTimeout))
-			}
-			w := j.t.Witnesses
-			if w == 0 {
-				w = 4
-			}
-			if j.shard != 0 {
-				w = 1
-			}
-			a = append(a, "--witnesses", strconv.Itoa(w))
-			var ps []string
-			for k, v := range j.t.Params {
-				ps = append(ps, fmt.Sprintf("%s=%d", k, v))
-			}
-			sort.Strings(ps)
-			if len(ps) > 0 {
-				a = append(a, "--params", strings.Join(ps, ","))
-			}
-			if *overlay != "" {
-				a = append(a, "--overlay", *overlay)
-			}
+			a := workerArgs(j, j.out)
 			cmd := exec.Command(self, a...)
 			lf, _ := os.Create(j.log)
 			cmd.Stdout, cmd.Stderr = lf, lf
@@ -533,6 +537,7 @@ func cmdCheck(args []string) int {
 		pkg    string
 		file   string
 		sched  bool
+		shard  int
 		status string // confirmed | unconfirmed | known | assume-failed
 		known  *Finding
 		native *nativeOutcome
@@ -574,7 +579,7 @@ func cmdCheck(args []string) int {
 					"panic_site": v.PanicSite, "inputs": v.Inputs, "schedule": v.Schedule, "params": paramsOf[name], "sched": hr.cfg.Sched, "engine": map[string]any{"path": v.Path, "detail": v.Detail}}
 				b, _ := json.MarshalIndent(rec, "", " ")
 				os.WriteFile(f, b, 0o644)
-				viols = append(viols, &vrec{v: v, pkg: hr.cfg.Pkg, file: f, sched: hr.cfg.Sched})
+				viols = append(viols, &vrec{v: v, pkg: hr.cfg.Pkg, file: f, sched: hr.cfg.Sched, shard: r.Shard})
 			}
 			for _, w := range r.Witnesses {
 				n++
@@ -649,7 +654,32 @@ func cmdCheck(args []string) int {
 				os.WriteFile(vr.file+".race.txt", []byte("WARNING: DATA RACE"+report), 0o644)
 			} else {
 				vr.status = "unconfirmed"
-				notes = append(notes, fmt.Sprintf("race %s (%s) was not reported by the Go race detector: %.300s", filepath.Base(vr.file), vr.v.PanicSite, report))
+				// the engine is deterministic: re-execute the worker that reported the race; a report that does
+				// not recur is an artefact of that run (seen once under heavy machine load) and is dropped
+				for _, j := range jobsList {
+					if j.h.Name != vr.v.Harness || j.shard != vr.shard {
+						continue
+					}
+					ro := j.out + ".recheck"
+					cmd := exec.Command(self, workerArgs(j, ro)...)
+					cmd.Run()
+					var rr interp.RunResult
+					if err := loadJSON(ro, &rr); err == nil {
+						again := false
+						for _, v2 := range rr.Violations {
+							if v2.Key() == vr.v.Key() {
+								again = true
+							}
+						}
+						if !again {
+							vr.status = "dropped"
+							notes = append(notes, fmt.Sprintf("race report %s (%s) did not recur when its worker was re-executed: dropped as an artefact of that run", filepath.Base(vr.file), vr.v.PanicSite))
+						}
+					}
+				}
+				if vr.status == "unconfirmed" {
+					notes = append(notes, fmt.Sprintf("race %s (%s) was not reported by the Go race detector: %.300s", filepath.Base(vr.file), vr.v.PanicSite, report))
+				}
 			}
 			continue
 		}
@@ -742,6 +772,7 @@ func cmdCheck(args []string) int {
 				lines = append(lines, fmt.Sprintf("  harness=%s scenario=%s kind=%s label=%s site=%s", vr.v.Harness, vr.v.Scenario, vr.v.Kind, vr.v.Label, vr.v.PanicSite))
 				exit = 1
 			}
+		case "dropped":
 		default:
 			unconfirmed++
 			notes = append(notes, fmt.Sprintf("counterexample %s (%s/%s/%s %s) did not reproduce natively: %s", filepath.Base(vr.file), vr.v.Harness, vr.v.Scenario, vr.v.Label, vr.v.PanicSite, vr.status))
